@@ -32,10 +32,13 @@ SandboxCfgs == {[ne |-> a, nw |-> b, nr |-> c, custom |-> d, failAt |-> 0 - 1, w
 DeliveryCfg == [ne |-> FALSE, nw |-> FALSE, nr |-> FALSE, custom |-> TRUE, failAt |-> 0 - 1, wkind |-> "plain", omode |-> "default",
                 stdin |-> <<>>, pre |-> {"f1"}]
 \* a failure at every byte offset (a history of Depth actions writes at most 4 * Depth bytes), and never (-1)
-\* Rich < 2 leaves out the combinations that add least: the 16-byte writer in default mode, and in TSV mode
-\* (which differs from CSV mode in the separator only) the 3-byte and the 4096-byte writer.
+\* Rich = 1 leaves out the combinations that add least: the 16-byte writer in default mode, and in TSV mode
+\* (which differs from CSV mode in the separator only) the 3-byte and the 4096-byte writer.  Rich = 0 (used for
+\* the deepest histories) keeps the plain and the 4096-byte writer in default mode, the plain and the 3-byte one in CSV mode.
 WriterModes == {wm \in WKinds \X OModes :
-                  Rich = 2 \/ (~(wm[2] = "default" /\ wm[1] = "bufio16") /\ ~(wm[2] = "tsv" /\ wm[1] \in {"bufio3", "bufio4096"}))}
+                  CASE Rich = 2 -> TRUE
+                    [] Rich = 0 -> wm \in {<<"plain", "default">>, <<"bufio4096", "default">>, <<"plain", "csv">>, <<"bufio3", "csv">>}
+                    [] OTHER    -> ~(wm[2] = "default" /\ wm[1] = "bufio16") /\ ~(wm[2] = "tsv" /\ wm[1] \in {"bufio3", "bufio4096"})}
 FailureCfgs == {[DeliveryCfg EXCEPT !.failAt = k, !.wkind = wm[1], !.omode = wm[2]] : k \in (0 - 1)..(4 * Depth), wm \in WriterModes}
 
 SandboxMenu(classes) == Menu(GFiles, classes, {"print"})
